@@ -23,6 +23,7 @@
    replay order (C12_restart_same_state_sorted, C12_restart_same_tip_linear: exactly the state after
    the last completely written block) and refuted in general (C12_restart_equal_fork_refuted,
    C12_restart_shorter_chain_refuted). *)
+From Saito Require Import Bytes BytesProofs Codec CodecProofs CodecMsgProofs CodecTotalProofs.
 From Saito Require Import Base Chain Storage ChainBasics ChainInv ChainWind ChainAdd ChainProofs ChainCheck StorageProofs.
 
 (* ---------------- what a crash can leave on disk ---------------- *)
@@ -40,6 +41,14 @@ Theorem C12_abs_apply_bop : forall (enc : pblk -> list N) (dec : list N -> optio
   (forall p m, (m < length (enc p))%nat -> dec (firstn m (enc p)) = None) ->
   forall d o, abs_disk dec (apply_bop enc d o) = abs_op enc o (abs_disk dec d).
 Proof. exact abs_apply_bop. Qed.
+
+(* the codec fact behind [Torn], for the real wire format (model/Codec.v, proved by C10 as
+   C10_block_prefix_rejected): every strict prefix of the serialisation that write_block_to_disk hands to
+   write_value is rejected by Block::deserialize_from_net - with Err, not with a panic *)
+Theorem C12_torn_block_file_rejected : forall b k,
+  Codec.wf_block b = true -> (k < length (Codec.encode_block Codec.BT_FULL b))%nat ->
+  Codec.decode_block (firstn k (Codec.encode_block Codec.BT_FULL b)) = Err.
+Proof. exact (block_prefix_rejected Codec.BT_FULL). Qed.
 
 Theorem C12_decodable_was_written : forall (enc : pblk -> list N) (dec : list N -> option pblk),
   (forall p, dec (enc p) = Some p) ->
@@ -181,6 +190,7 @@ Proof. exact ex_W_run. Qed.
 Print Assumptions C12_crash_closed.
 Print Assumptions C12_abs_apply_bop.
 Print Assumptions C12_decodable_was_written.
+Print Assumptions C12_torn_block_file_rejected.
 Print Assumptions C12_restart_safe.
 Print Assumptions C12_restart_after_crash.
 Print Assumptions C12_restart_tip_known.
